@@ -15,7 +15,7 @@ import (
 	"verif/hx"
 )
 
-const rule = "case = (expression: valid edit / no-op / parse error / runtime error on a later document / encode error / -e without a match / zero results; file content: 1-3 documents, malformed tail, front matter + text, empty, no trailing newline; eval | eval-all; --front-matter=process; -o; file mode 0644/0600/0755/0444; temp directory on the same or on another file system). " +
+const rule = "case = (expression: valid edit / no-op / parse error / runtime error on a later document / encode error / -e without a match / zero results; file content: 1-3 documents, malformed tail, front matter + text, empty, no trailing newline; eval | eval-all; --front-matter=process; -o; file mode 0644/0600/0755/0444 and modes with bits the usual umask clears (0664/0666/0775/0606); temp directory on the same or on another file system). " +
 	"For every case the fault space is ENUMERATED: a trace run lists the protocol points the run passes (hooks, build tag verif); then one run per point and mode (error return, SIGKILL), plus real faults: write limit (ulimit -f) at three offsets, missing and unwritable TMPDIR, read-only target directory, SIGKILL after a random delay. " +
 	"oracle: old = bytes before, new = stdout of the same command without -i. exit 0 => file == new and mode bits unchanged; exit != 0 => file == old; killed => file == old or file == new. " +
 	"non-trivial = a run in which the injected fault was reached (trace) or the command genuinely failed; distinct by (case, fault)"
@@ -46,7 +46,7 @@ var contents = []string{
 
 func genCase(t *rapid.T) Case {
 	c := Case{Expr: rapid.SampledFrom(exprs).Draw(t, "expr"), Content: rapid.SampledFrom(contents).Draw(t, "content"),
-		Mode: rapid.SampledFrom([]uint32{0o644, 0o600, 0o755, 0o444}).Draw(t, "mode"), OtherFS: rapid.Bool().Draw(t, "otherfs"), Name: "t.yaml"}
+		Mode: rapid.SampledFrom([]uint32{0o644, 0o600, 0o755, 0o444, 0o664, 0o666, 0o775, 0o606}).Draw(t, "mode"), OtherFS: rapid.Bool().Draw(t, "otherfs"), Name: "t.yaml"}
 	if rapid.IntRange(0, 4).Draw(t, "ea") == 0 {
 		c.Flags = append(c.Flags, "ea")
 	}
